@@ -105,6 +105,15 @@ def chain(ctx) -> None:
     ctx.check(ok, 'C04.chain', get, 'a positional key indexes the ordered state list of the tag (never a sorted listing)', idx[0] if idx else get.node, key='Generation.get:positional')
     ctx.check('return STATES(self.registry, self.project.key, self.release.key, self.key, key)' in core.src(get.node), 'C04.chain', get, 'the state is read from this very project/release/generation', get.node, key='Generation.get:read')
     C01.persistence(ctx)
+    # an implicit ("latest") level key is resolved once and pinned: all state loads of one run see one generation
+    lk = prog.func('forml.io.asset._directory:Level.key')
+    pins = [s for s in core.walk_local(lk.node) if isinstance(s, ast.Assign) and core.src(s.targets[0]) == 'self._key' and core.src(s.value) == 'self._parent.list().last']
+    okpin = len(pins) == 1 and ('self._key is None', True) in cfg.cguards(pins[0], lk.node)
+    rets = [r for r in core.walk_local(lk.node) if isinstance(r, ast.Return)]
+    ctx.check(okpin and bool(rets) and all(core.src(r.value) == 'self._key' for r in rets), 'C04.chain', lk, 'the lazily resolved latest key is stored on the level (pinned) and that stored key is what every access returns: a generation committed meanwhile cannot split one run over two generations', pins[0] if pins else lk.node, key='Level.key:pinned')
+    from . import C05
+
+    C05.close_order(ctx)  # a listed generation always holds all its states (no actor silently receives "no state")
     # tag order (shared with C05/C18)
     dumps = prog.func(f'{MINOR}:Tag.dumps')
     d = next((n for n in ast.walk(dumps.node) if isinstance(n, ast.Dict) and any(isinstance(k, ast.Constant) and k.value == 'states' for k in n.keys)), None)
